@@ -489,6 +489,9 @@ class Fn:
             if ta == ("L", V):
                 return "(np_vstack1 F %s)" % a, M
             fail(e, "np.stack of %s" % (ta,))
+        if fsrc == "all" and len(args) == 1:
+            a = self.expr(args[0], ("L", B))[0]
+            return "(forallb (fun b_ : bool => b_) %s)" % a, B
         if fsrc == "len" and len(args) == 1:
             if isinstance(args[0], ast.Call) and ast.unparse(args[0].func) == "set" and len(args[0].args) == 1:
                 a = self.expr(args[0].args[0], ("L", Z))[0]
@@ -735,6 +738,14 @@ class Fn:
                 return self.block((s.body if tc[1] else s.orelse) + rest, k)
             if tc != B:
                 fail(s, "if condition of type %s" % (tc,))
+            if ends(s.body) and isinstance(s.body[-1], ast.Return) and not any(isinstance(n, ast.Raise) for b in s.body + s.orelse for n in ast.walk(b)) \
+                    and (not s.orelse or (ends(s.orelse) and isinstance(s.orelse[-1], ast.Return))):
+                # if c: ...; return X   [else: ...; return Y]   followed by the rest
+                saved = dict(self.env)
+                a = self.block(s.body, lambda: fail(s, "fallthrough"))
+                self.env = dict(saved)
+                b = self.block(s.orelse, lambda: fail(s, "fallthrough")) if s.orelse else cont()
+                return "if %s then %s\n  else %s" % (c, a, b)
             if any(isinstance(n, (ast.Return, ast.Raise)) for b in s.body + s.orelse for n in ast.walk(b)):
                 fail(s, "return / raise inside an if")
             ab, ae = self.assigned(s.body), self.assigned(s.orelse)
@@ -817,6 +828,10 @@ class Fn:
         hdr = "Definition %s (F : OF) %s :=\n  %s." % (name, " ".join("(%s : %s)" % (n, coq_type(t)) for n, t in allp), body)
         info = dict(coq=name, params=params, ret=(("Opt", rt) if self.has_fail else rt), extra=self.extra_params)
         return hdr, info
+
+
+def ends(stmts):
+    return bool(stmts) and isinstance(stmts[-1], (ast.Return, ast.Raise))
 
 
 def find_function(tree, sig):
@@ -918,6 +933,11 @@ TABLE = [
                        "not target": ("static", "false", "bool")},
          extra=[("lookup", ["Z", "Z"], "Z")], calls={"op.compose_qoperations": ("compose", ["L[Z]"], "V")},
          ignore_calls=["self._validate_schedule_index"], vars={"targets": "L[Z]"}),
+    # ---- the validity test of the constructors: every later tester's CompositeSystem must be == (CompositeSystem.__eq__, uninterpreted) the first one's
+    dict(file=STD + "standard_qtomography.py", **{"class": "StandardQTomography"}, function="is_all_same_composite_systems",
+         coq_name="gen_is_all_same_composite_systems", params={"targets": "L[Z]"},
+         abstractions={"targets[0]._composite_system == target._composite_system": ("expr", "(same_csys (znth 0%Z targets 0%Z) target)", "bool")},
+         extra=[("same_csys", ["Z", "Z"], "bool")]),
     # ---- which object of a schedule is the unknown
     dict(file=STD + "standard_qst.py", **{"class": "StandardQst"}, function="_get_target_index", coq_name="gen_qst_get_target_index",
          params={"schedule_index": "Z"}, drop=["experiment"], abstractions={"experiment.schedules": ("param", "schedules", "L[S]")}),
